@@ -198,7 +198,7 @@ def main(tier):
     jobs = []
     for cfg in cfgs:
         for which in ("vs", "gs", "dvs", "dgs"):
-            if cfg[0] in ("SO3", "SE2") and which in ("dvs", "dgs") and tier == "quick":
+            if cfg[0] in ("SO3", "SE2") and which in ("dvs", "dgs") and tier == "quick" and not (cfg[0] == "SE2" and which == "dvs"):
                 continue
             jobs.append((job, (cfg, which, tier, cfgs)))
     run.extend(check.run_jobs(jobs, timeout=900 if tier == "quick" else 3600))
